@@ -7,4 +7,4 @@ Definition keepN : N := N.add 0 0.
 Definition keepZ : Z := Z.add 0 0.
 Extraction "model_c03.ml" keepN keepZ enc dec wfv wfs refined writer_form reward_sort_key is_empty_val
   parse_exact encode_item item_eqb to_item
-  cddl_ok cddl_ok_bytes cddl_diag conway_env conway_pairs fuel_for sets_emitted judge_class judge_class_json judge_class_header judge_class_tx given_degenerate conforms conforms_bytes.
+  cddl_ok cddl_ok_bytes cddl_diag conway_env conway_pairs fuel_for sets_emitted judge_class judge_class_header judge_class_tx given_degenerate conforms conforms_bytes.
